@@ -206,8 +206,27 @@ def shard(ctx):
         sample(ctx)
         sweeps(ctx, rng, P["sweep"])
         unsupported_encoders(ctx, rng)
+    # a bystander model stays parsed on a live handle while all other models of the shard are parsed, edited, written and dropped:
+    # what it writes must stay byte-identical to what it wrote first
+    bm = gen_canonical(rng, 200)
+    bdata, _ = mdl.build(bm)
+    bf = ctx.write("bystander.mdl", bdata)
+    br = ctx.call("mdl.parse", bf, "-", "keep", input_bytes=len(bdata))
+    bh, bfirst = (br.value["handle"], None) if br.ok else (None, None)
     for i in range(P["n"]):
         history_case(ctx, rng, P)
+        if bh is not None and (i % 8 == 0 or i == P["n"] - 1):
+            bout = ctx.path("bystander.out")
+            rw = ctx.call("mdl.write", bh, bout, input_bytes=len(bdata))
+            if rw.ok:
+                w = ctx.read("bystander.out")
+                ctx.case(("bystander", ctx.index, i), True, ["bystander-handle"])
+                if bfirst is None:
+                    bfirst = w
+                elif w != bfirst:
+                    ctx.violation("identity", dict(sub="bystander_handle_changed"), dict(after_cases=i), files=[bf])
+    if bh is not None:
+        ctx.call("drop", bh)
 
 
 def sample(ctx):
